@@ -37,9 +37,6 @@ func (m *ModelServer) ListConsumables(_ context.Context, request *traits.ListCon
 	if err := decodePageToken(request.PageToken, pageToken); err != nil {
 		return nil, err
 	}
-	if err := validatePageSize(request.GetPageSize()); err != nil {
-		return nil, err
-	}
 
 	lastKey := pageToken.GetLastResourceName() // the key() of the last item we sent
 	pageSize := capPageSize(int(request.GetPageSize()))
@@ -116,9 +113,6 @@ func (m *ModelServer) PullStock(request *traits.PullStockRequest, server traits.
 func (m *ModelServer) ListInventory(_ context.Context, request *traits.ListInventoryRequest) (*traits.ListInventoryResponse, error) {
 	pageToken := &types.PageToken{}
 	if err := decodePageToken(request.PageToken, pageToken); err != nil {
-		return nil, err
-	}
-	if err := validatePageSize(request.GetPageSize()); err != nil {
 		return nil, err
 	}
 
